@@ -680,7 +680,7 @@ class Interp:
         if isinstance(it, App):
             if it.func == "enumerate" and it.args:
                 return ListV((Sym(f"idx@{it.line}"), self.elem_of(it.args[0], n)), kind="tuple")
-            if it.func in ("sorted", "list", "reversed", "tuple", "set") and it.args:
+            if it.func in ("list", "reversed", "tuple", "set") and it.args:
                 return self.elem_of(it.args[0], n)
             if it.func.endswith(".values") and not it.args:
                 return App("elem", (it,), (), it.line)
